@@ -78,6 +78,7 @@ type Interp struct {
 	evalFn                                                                     *Obj
 	ctx                                                                        *execCtx
 	steps, MaxSteps                                                            int
+	evalDepth                                                                  int
 	depth, MaxDepth                                                            int
 	objSeq                                                                     int
 	Trace                                                                      []string
@@ -615,6 +616,9 @@ func (in *Interp) stmtL(n *Node, labels []string) completion {
 // otto loses these values (finding: completion values of abrupt completions).
 func (in *Interp) noteAbruptValue(c completion) {
 	in.flag("abrupt-completion-consumed")
+	if in.evalDepth > 0 {
+		in.flag("abrupt-completion-consumed-in-eval") // the eval call's result (an ordinary value) depends on it
+	}
 }
 
 func (in *Interp) switchStmt(n *Node, labels []string) completion {
@@ -1152,7 +1156,11 @@ func (in *Interp) evalCode(program *Node, direct bool) Value {
 		in.ctx = &execCtx{lex: in.GlobalEnv, varEnv: in.GlobalEnv, this: in.Global}
 	}
 	in.declarationBinding(program.C, in.ctx.varEnv, nil, nil, true)
-	c := in.stmtList(program.C)
+	in.evalDepth++
+	c := func() completion {
+		defer func() { in.evalDepth-- }()
+		return in.stmtList(program.C)
+	}()
 	if c.value == nil {
 		return Undefined
 	}
